@@ -48,7 +48,7 @@ func runReplay(t *testing.T, res *report.Result, path string) {
 		t.Fatal(err)
 	}
 	rp := f.Replay
-	envs := cat.Envelopes()
+	envs := append(cat.Envelopes(), cat.ExtraEnvelopes()...)
 	switch rp.Property {
 	case "C14":
 		h := &c14{res: res, verbose: true}
